@@ -484,7 +484,7 @@ func opName(ops []Op, i int) string {
 func c02Params() GenParams {
 	return GenParams{SnapEmptyPct: 30, RecreatePct: 40, MinOps: 5, MaxOps: 26, WKV: 3, WCreate: 3, WDrop: 2, WAdd: 9, WBatch: 3, WImport: 2, WDel: 5, WMeta: 4, WReinforce: 1, WEvolve: 1,
 		WLink: 5, WUnlink: 3, WConfig: 1, WAutoLinks: 1, WSnapshot: 4, WRewrite: 4, WCompress: 2, WMaint: 1, WFlush: 3, WRestart: 2,
-		InvalidPct: 3, AllowInt8: true, AllowMemory: false, AllowAutoLink: true, AllowText: true, SmallEfC: true, BigBatch: false, NullMeta: true}
+		InvalidPct: 3, AllowInt8: true, AllowMemory: false, AllowAutoLink: true, AllowText: true, SmallEfC: true, BigBatch: false, NullMeta: true, ReplacePct: 35}
 }
 
 func c02Classify(ops []Op) (labels []string, admin bool) {
